@@ -917,8 +917,13 @@ func (t *tr) ret(r *ast.ReturnStmt) string {
 		// (int, error) handler results: the HTTP status, followed by StateVars in "statusstate" mode
 		st := ""
 		k := src(r.Results[t.sp.StatusIdx])
+		ck := norm(src(t.subst(r.Results[t.sp.StatusIdx]))) // the same value under its canonical (alias-substituted / Bind) name
 		if n, ok := t.sp.Status[k]; ok {
 			st = fmt.Sprintf("(%d : Nat)", n)
+		} else if n, ok := t.sp.Status[ck]; ok {
+			st = fmt.Sprintf("(%d : Nat)", n)
+		} else if n, ok := t.sp.Status["*"]; ok && k != "nil" {
+			st = fmt.Sprintf("(%d : Nat)", n) // "*": any value other than nil
 		} else if rp, ok := t.sp.Repl[k]; ok {
 			st = rp
 		} else {
